@@ -65,3 +65,172 @@ Proof.
   assert (Hz2 : div_half_even (div_half_even (N * g) D) g <= k + 1) by (apply dhe_upper; [assumption|lia]).
   lia.
 Qed.
+
+(* ================================================================================================================================
+   Towards c05_float32_one_ulp: the internals of `rne` named, and the double-rounding bound instantiated on them.
+   For 0 < a, 0 < b:  rne_e a b = the binade exponent the model selects (format independent), rne_q f a b = the exponent of the unit
+   in the last place (subnormals included: max e emin), rne_m f a b = the significand before renormalisation. *)
+Definition rne_e (a b : Z) : Z :=
+  let e0 := Z.log2 a - Z.log2 b in
+  if a * 2 ^ (Z.max (- e0) 0) <? b * 2 ^ (Z.max e0 0) then e0 - 1 else e0.
+Definition rne_q (f : fmt) (a b : Z) : Z := Z.max (rne_e a b) (f_emin f) - (f_prec f - 1).
+Definition rne_m (f : fmt) (a b : Z) : Z :=
+  div_half_even (a * 2 ^ (Z.max (- rne_q f a b) 0)) (b * 2 ^ (Z.max (rne_q f a b) 0)).
+
+(* rne is exactly these parts, then renormalisation at 2^prec and the overflow test *)
+Lemma rne_parts f a b : 0 < a ->
+  rne f a b =
+  let '(m, q) := if rne_m f a b =? 2 ^ f_prec f then (2 ^ (f_prec f - 1), rne_q f a b + 1) else (rne_m f a b, rne_q f a b) in
+  if f_emax f <? q + f_prec f - 1 then FInf false else FFin false m q.
+Proof.
+  intro Ha. unfold rne, rne_m, rne_q, rne_e. destruct (Z.ltb_spec a 0); [lia|]. rewrite (Z.abs_eq a) by lia.
+  destruct (Z.eqb_spec a 0); [lia|]. reflexivity.
+Qed.
+
+(* div_half_even depends on the ratio only *)
+Lemma dhe_scale N D k : 0 < D -> 0 < k -> div_half_even (N * k) (D * k) = div_half_even N D.
+Proof.
+  intros HD Hk. unfold div_half_even. rewrite Z.div_mul_cancel_r by lia. rewrite Z.mul_mod_distr_r by lia.
+  replace (2 * (N mod D * k)) with (2 * (N mod D) * k) by ring.
+  rewrite <- (Zmult_compare_compat_r (2 * (N mod D)) D k) by lia. reflexivity.
+Qed.
+
+Lemma dhe_ratio N1 D1 N2 D2 : 0 < D1 -> 0 < D2 -> N1 * D2 = N2 * D1 -> div_half_even N1 D1 = div_half_even N2 D2.
+Proof.
+  intros H1 H2 E. rewrite <- (dhe_scale N1 D1 D2 H1 H2). rewrite <- (dhe_scale N2 D2 D1 H2 H1). rewrite E. f_equal. ring.
+Qed.
+
+(* the grids are nested: the binary64 unit in the last place is never coarser than the binary32 one, subnormals of either format included *)
+Lemma grids_nested a b : rne_q binary64 a b <= rne_q binary32 a b.
+Proof. unfold rne_q. cbn [f_emin f_prec binary64 binary32]. lia. Qed.
+
+(* THE BOUND on the model's own quantities, for every positive rational, no side condition: re-rounding the binary64 significand of
+   a/b onto the binary32 grid of the same binade gives a significand within ONE unit of the directly rounded binary32 significand *)
+Theorem float32_significand_within_one : forall a b, 0 < a -> 0 < b ->
+  -1 <= div_half_even (rne_m binary64 a b) (2 ^ (rne_q binary32 a b - rne_q binary64 a b)) - rne_m binary32 a b <= 1.
+Proof.
+  intros a b Ha Hb. pose proof (grids_nested a b) as Hn.
+  set (q3 := rne_q binary32 a b) in *. set (q6 := rne_q binary64 a b) in *.
+  set (g := 2 ^ (q3 - q6)). assert (Hg : 0 < g) by (apply Z.pow_pos_nonneg; lia).
+  set (N := a * 2 ^ (Z.max (- q3) 0)). set (D := b * 2 ^ (Z.max q3 0)).
+  assert (HD : 0 < D) by (apply Z.mul_pos_pos; [lia|apply Z.pow_pos_nonneg; lia]).
+  assert (HN : 0 <= N) by (apply Z.mul_nonneg_nonneg; [lia|apply Z.pow_nonneg; lia]).
+  assert (E64 : rne_m binary64 a b = div_half_even (N * g) D).
+  { unfold rne_m. fold q6. apply dhe_ratio.
+    - apply Z.mul_pos_pos; [lia|apply Z.pow_pos_nonneg; lia].
+    - exact HD.
+    - unfold N, D, g.
+      transitivity (a * b * (2 ^ (Z.max (- q6) 0) * 2 ^ (Z.max q3 0))); [ring|].
+      transitivity (a * b * (2 ^ (Z.max (- q3) 0) * 2 ^ (q3 - q6) * 2 ^ (Z.max q6 0))); [|ring].
+      f_equal. rewrite <- !Z.pow_add_r by lia. f_equal. lia. }
+  assert (E32 : rne_m binary32 a b = div_half_even N D) by reflexivity.
+  rewrite E64, E32. apply double_rounding_within_one; assumption.
+Qed.
+
+(* the exact rational that the cast re-rounds: fval_q returns the value m * 2^q of a finite result (common powers of two cancelled) *)
+Lemma strip2_val : forall k p p' k', strip2 p k = (p', k') ->
+  (k' <= k)%nat /\ Z.pos p * 2 ^ Z.of_nat k' = Z.pos p' * 2 ^ Z.of_nat k.
+Proof.
+  induction k as [|k IH]; intros p p' k' H.
+  - destruct p; cbn [strip2] in H; injection H as <- <-; split; try lia; reflexivity.
+  - destruct p as [p0|p0|]; cbn [strip2] in H; try (injection H as <- <-; split; [lia|reflexivity]).
+    destruct (IH p0 p' k' H) as [Hle E]. split; [lia|].
+    rewrite Pos2Z.inj_xO. rewrite Nat2Z.inj_succ, Z.pow_succ_r by lia.
+    transitivity (2 * (Z.pos p0 * 2 ^ Z.of_nat k')); [ring|]. rewrite E. ring.
+Qed.
+
+Lemma fval_q_val m q : 0 < m -> exists n d, fval_q (FFin false m q) = Some (n, d) /\ 0 < n /\ 0 < d /\
+  n * 2 ^ (Z.max (- q) 0) = m * 2 ^ (Z.max q 0) * d.
+Proof.
+  intro Hm. unfold fval_q. destruct (Z.leb_spec 0 q).
+  - exists (m * 2 ^ q), 1. split; [reflexivity|]. assert (0 < 2 ^ q) by (apply Z.pow_pos_nonneg; lia).
+    split; [nia|]. split; [lia|]. rewrite (Z.max_r (- q) 0), (Z.max_l q 0) by lia. ring.
+  - destruct m as [|p|p]; try lia. destruct (strip2 p (Z.to_nat (- q))) as [p' k'] eqn:E.
+    destruct (strip2_val _ _ _ _ E) as [Hle Hv]. exists (Z.pos p'), (2 ^ Z.of_nat k'). split; [reflexivity|].
+    split; [lia|]. split; [apply Z.pow_pos_nonneg; lia|].
+    rewrite (Z.max_l (- q) 0), (Z.max_r q 0) by lia. rewrite Z2Nat.id in Hv by lia. change (2 ^ 0) with 1. rewrite <- Hv. ring.
+Qed.
+
+(* value of the (possibly renormalised) binary64 result in terms of the unrenormalised significand *)
+Lemma renorm_value n d m6 q6 mx qx : 0 < d ->
+  (mx, qx) = (if m6 =? 2 ^ 53 then (2 ^ 52, q6 + 1) else (m6, q6)) ->
+  n * 2 ^ (Z.max (- qx) 0) = mx * 2 ^ (Z.max qx 0) * d ->
+  n * 2 ^ (Z.max (- q6) 0) = m6 * 2 ^ (Z.max q6 0) * d.
+Proof.
+  intros Hd E H. destruct (Z.eqb_spec m6 (2 ^ 53)) as [E6|_]; injection E as -> ->; [|exact H]. rewrite E6.
+  change (Z.pow_pos 2 52) with (2 ^ 52) in H. assert (P : 2 ^ 53 = 2 ^ 52 * 2) by reflexivity. rewrite P. change (2 ^ 1) with 2 in *.
+  destruct (Z_le_gt_dec 0 q6).
+  - rewrite (Z.max_r (- (q6 + 1)) 0), (Z.max_l (q6 + 1) 0) in H by lia. rewrite (Z.max_r (- q6) 0), (Z.max_l q6 0) by lia.
+    rewrite H. rewrite Z.pow_add_r by lia. change (2 ^ 1) with 2. ring.
+  - rewrite (Z.max_l (- (q6 + 1)) 0), (Z.max_r (q6 + 1) 0) in H by lia. rewrite (Z.max_l (- q6) 0), (Z.max_r q6 0) by lia.
+    replace (- q6) with (- (q6 + 1) + 1) by lia. rewrite Z.pow_add_r by lia. change (2 ^ 1) with 2. change (2 ^ 0) with 1 in *.
+    transitivity (n * 2 ^ (- (q6 + 1)) * 2); [ring|]. rewrite H. ring.
+Qed.
+
+Lemma regrid n d m6 q6 q3 : q6 <= q3 ->
+  n * 2 ^ (Z.max (- q6) 0) = m6 * 2 ^ (Z.max q6 0) * d ->
+  n * 2 ^ (Z.max (- q3) 0) * 2 ^ (q3 - q6) = m6 * (d * 2 ^ (Z.max q3 0)).
+Proof.
+  intros Hq H. destruct (Z_le_gt_dec 0 q6); [|destruct (Z_le_gt_dec q3 0)].
+  - rewrite (Z.max_r (- q6) 0), (Z.max_l q6 0) in H by lia. rewrite (Z.max_r (- q3) 0), (Z.max_l q3 0) by lia.
+    change (2 ^ 0) with 1 in *. rewrite Z.mul_1_r in *. rewrite H.
+    replace q3 with (q6 + (q3 - q6)) at 2 by lia. rewrite (Z.pow_add_r 2 q6 (q3 - q6)) by lia. ring.
+  - rewrite (Z.max_l (- q6) 0), (Z.max_r q6 0) in H by lia. rewrite (Z.max_l (- q3) 0), (Z.max_r q3 0) by lia.
+    change (2 ^ 0) with 1 in *. rewrite <- Z.mul_assoc, <- Z.pow_add_r by lia. replace (- q3 + (q3 - q6)) with (- q6) by lia. rewrite H. ring.
+  - rewrite (Z.max_l (- q6) 0), (Z.max_r q6 0) in H by lia. rewrite (Z.max_r (- q3) 0), (Z.max_l q3 0) by lia.
+    change (2 ^ 0) with 1 in *. replace (q3 - q6) with (q3 + - q6) by lia. rewrite Z.pow_add_r by lia.
+    transitivity (n * 2 ^ (- q6) * 2 ^ q3); [ring|]. rewrite H. ring.
+Qed.
+
+(* THE CAST: the exported float32 constant is rne binary32 applied to the exact value (n, d) of the finite, non-zero binary64 result.
+   Named side conditions: the binary64 rounding does not overflow and is not zero (H64, Hmx), and SAME BINADE -- the second rounding
+   selects the same unit in the last place as the direct one (S2; it fails only when the binary64 result lands exactly on the next
+   power of two, where both roundings give that power of two).  Then both binary32 results are produced by the same renormalisation /
+   overflow wrapper (rne_parts) from significands on the SAME grid that differ by at most one: the two constants are equal or adjacent
+   binary32 values. *)
+Theorem float32_cast_significand_within_one : forall a b mx qx n d, 0 < a -> 0 < b ->
+  rne binary64 a b = FFin false mx qx -> 0 < mx -> fval_q (FFin false mx qx) = Some (n, d) ->
+  rne_q binary32 n d = rne_q binary32 a b ->
+  0 < n /\ 0 < d /\ -1 <= rne_m binary32 n d - rne_m binary32 a b <= 1.
+Proof.
+  intros a b mx qx n d Ha Hb H64 Hmx Hq S2.
+  destruct (fval_q_val mx qx Hmx) as [n0 [d0 [E0 [Hn [Hd Hv]]]]]. rewrite Hq in E0. injection E0 as <- <-.
+  split; [exact Hn|]. split; [exact Hd|].
+  rewrite (rne_parts binary64 a b Ha) in H64. cbn [f_prec f_emax binary64] in H64.
+  set (m6 := rne_m binary64 a b) in *. set (q6 := rne_q binary64 a b) in *.
+  assert (Epair : (mx, qx) = (if m6 =? 2 ^ 53 then (2 ^ (53 - 1), q6 + 1) else (m6, q6))).
+  { destruct (if m6 =? 2 ^ 53 then (2 ^ (53 - 1), q6 + 1) else (m6, q6)) as [m' q'].
+    destruct (1023 <? q' + 53 - 1); [discriminate|]. injection H64 as <- <-. reflexivity. }
+  change (2 ^ (53 - 1)) with (2 ^ 52) in Epair.
+  pose proof (renorm_value n d m6 q6 mx qx Hd Epair Hv) as Hv6.
+  pose proof (grids_nested a b) as Hnest. fold q6 in Hnest.
+  assert (Em : rne_m binary32 n d = div_half_even m6 (2 ^ (rne_q binary32 a b - q6))).
+  { unfold rne_m at 1. rewrite S2. apply dhe_ratio.
+    - apply Z.mul_pos_pos; [lia|apply Z.pow_pos_nonneg; lia].
+    - apply Z.pow_pos_nonneg; lia.
+    - apply regrid; assumption. }
+  rewrite Em. apply float32_significand_within_one; assumption.
+Qed.
+
+(* the common wrapper of rne binary32 on the grid q3: renormalisation at 2^24 and the overflow test *)
+Definition wrap32 (q3 m : Z) : fval :=
+  let '(m, q) := if m =? 2 ^ 24 then (2 ^ 23, q3 + 1) else (m, q3) in
+  if 127 <? q + 24 - 1 then FInf false else FFin false m q.
+
+(* the exported float32 constant `(float) <correctly rounded double>` and the correctly rounded binary32 value are the images under the
+   SAME wrapper of two significands on the SAME grid that differ by at most one: equal or adjacent binary32 values, i.e. within one
+   binary32 ulp -- for every positive rational, binary32 and binary64 subnormals included, under the named side conditions
+   (binary64 result finite and non-zero; same binade for the second rounding) *)
+Theorem float32_cast_within_one_ulp : forall a b mx qx n d, 0 < a -> 0 < b ->
+  rne binary64 a b = FFin false mx qx -> 0 < mx -> fval_q (FFin false mx qx) = Some (n, d) ->
+  rne_q binary32 n d = rne_q binary32 a b ->
+  cast32_of_64 a b = wrap32 (rne_q binary32 a b) (rne_m binary32 n d) /\
+  rne binary32 a b = wrap32 (rne_q binary32 a b) (rne_m binary32 a b) /\
+  -1 <= rne_m binary32 n d - rne_m binary32 a b <= 1.
+Proof.
+  intros a b mx qx n d Ha Hb H64 Hmx Hq S2.
+  destruct (float32_cast_significand_within_one a b mx qx n d Ha Hb H64 Hmx Hq S2) as [Hn [Hd Hbound]].
+  split; [|split; [|exact Hbound]].
+  - unfold cast32_of_64. rewrite H64, Hq. rewrite (rne_parts binary32 n d Hn). rewrite S2. reflexivity.
+  - rewrite (rne_parts binary32 a b Ha). reflexivity.
+Qed.
